@@ -29,13 +29,154 @@ fn gen_case_heavy(rng: &mut Rng, family: Family, fuel: usize) -> Option<Dag> {
     Some(dag)
 }
 
+/// Append a case node that is executed with a left AND a right value in the same run (so it keeps both branches)
+/// as the last case node of the program: comp(P, comp(pair(comp(pair(injl unit, unit), K), comp(pair(injr unit, unit), K)), unit)).
+fn with_both_ways_tail(dag: &Dag) -> Dag {
+    let mut d = dag.clone();
+    let p = d.root();
+    let u = d.push(Op::Unit);
+    // branches that no generated program contains, so that this case node has no structural twin elsewhere
+    // (a twin pruned to an assertion would share its identity root; see known_findings.json)
+    let ua = d.push(Op::Unit);
+    let ub = d.push(Op::Unit);
+    let uc = d.push(Op::Unit);
+    let k1a = d.push(Op::Comp(ua, ub));
+    let k1 = d.push(Op::Comp(k1a, uc));
+    let ud = d.push(Op::Unit);
+    let ue = d.push(Op::Unit);
+    let uf = d.push(Op::Unit);
+    let ug = d.push(Op::Unit);
+    let k2a = d.push(Op::Comp(ud, ue));
+    let k2b = d.push(Op::Comp(k2a, uf));
+    let k2 = d.push(Op::Comp(k2b, ug));
+    let k = d.push(Op::Case(k1, k2));
+    let l = d.push(Op::InjL(u));
+    let r = d.push(Op::InjR(u));
+    let pl = d.push(Op::Pair(l, u));
+    let pr = d.push(Op::Pair(r, u));
+    let x1 = d.push(Op::Comp(pl, k));
+    let x2 = d.push(Op::Comp(pr, k));
+    let both = d.push(Op::Pair(x1, x2));
+    let u2 = d.push(Op::Unit);
+    let tail = d.push(Op::Comp(both, u2));
+    d.push(Op::Comp(p, tail));
+    d
+}
+
+/// `comp (pair J unit) (case L R)` for an Elements jet J : 1 -> A + B (or 2^32 -> ..., fed an index) whose two sides
+/// have different widths: the sum type is pinned by the jet, so the assertion left by pruning keeps its padding.
+fn case_on_jet_output(rng: &mut Rng, spec: &txgen::TxSpec) -> Option<Dag> {
+    let jets = gen::jets_of(Family::Elements);
+    let cands: Vec<&gen::JetInfo> = jets
+        .iter()
+        .filter(|j| (j.src.is_unit() || j.src.as_word() == Some(5)) && j.tgt.as_sum().map(|(a, b)| a.width != b.width).unwrap_or(false) && j.tgt.width < 2000)
+        .collect();
+    if cands.is_empty() {
+        return None;
+    }
+    let j = *rng.pick(&cands);
+    let mut d = Dag::default();
+    let jn = d.push(Op::Jet(j.jet));
+    let mut idx = 0u32;
+    let src = if j.src.is_unit() {
+        jn
+    } else {
+        let n_in = spec.ins.len() as u32;
+        let n_out = spec.outs.len() as u32;
+        idx = *rng.pick(&[0u32, 1, n_in.saturating_sub(1), n_in, n_out.saturating_sub(1), n_out, spec.ix]);
+        let w = d.push(Op::Word(5, idx.to_be_bytes().to_vec()));
+        d.push(Op::Comp(w, jn))
+    };
+    let u = d.push(Op::Unit);
+    let p = d.push(Op::Pair(src, u));
+    // Where the harness knows the jet's output (C15's field extractor) and it is a right value whose payload is a word
+    // with an equality jet, the right branch verifies that it READS that payload: eq(take iden, const) ; verify.
+    if let (Some((la, rb)), crate::c15::Expect::Value(crate::val::V::R(payload))) = (j.tgt.as_sum(), guard(|| crate::c15::expected(&j.jet.name(), spec, idx)).unwrap_or(crate::c15::Expect::Unknown)) {
+        if let Some(n) = rb.as_word() {
+            let eq = jets.iter().find(|x| x.jet.name() == format!("eq_{}", 1usize << n));
+            let verify = jets.iter().find(|x| x.jet.name() == "verify");
+            if let (Some(eq), Some(verify), true) = (eq, verify, la.width != rb.width) {
+                let bits = crate::val::compact_vec(&payload, rb);
+                let mut bytes = bits::bytes_of_bits(&bits);
+                if bytes.is_empty() {
+                    bytes.push(0);
+                }
+                let i = d.push(Op::Iden);
+                let t = d.push(Op::Take(i));
+                let uu = d.push(Op::Unit);
+                let c = d.push(Op::Word(n as u8, bytes));
+                let cc = d.push(Op::Comp(uu, c));
+                let pr = d.push(Op::Pair(t, cc));
+                let e = d.push(Op::Jet(eq.jet));
+                let cmp = d.push(Op::Comp(pr, e));
+                let v = d.push(Op::Jet(verify.jet));
+                let r = d.push(Op::Comp(cmp, v));
+                let l = d.push(Op::Unit);
+                let cs = d.push(Op::Case(l, r));
+                d.push(Op::Comp(p, cs));
+                return Some(d);
+            }
+        }
+    }
+    // branches: A x 1 -> 1 and B x 1 -> 1, a little more than `unit` sometimes
+    let mk = |d: &mut Dag, rng: &mut Rng| {
+        let u = d.push(Op::Unit);
+        if rng.bool() {
+            u
+        } else {
+            let i = d.push(Op::Iden);
+            let t = d.push(Op::Take(i));
+            d.push(Op::Comp(t, u))
+        }
+    };
+    let l = mk(&mut d, rng);
+    let r = mk(&mut d, rng);
+    let c = d.push(Op::Case(l, r));
+    d.push(Op::Comp(p, c));
+    Some(d)
+}
+
 fn one_case(rng: &mut Rng, case: &mut Case, family: Family) -> Outcome {
     let fuel = rng.urange(4, 24);
     let dag = match gen_case_heavy(rng, family, fuel) {
         Some(d) => d,
         None => return Outcome::Trivial,
     };
+    // half of the programs end in a case node that keeps both branches
+    let dag = if rng.bool() { with_both_ways_tail(&dag) } else { dag };
     let spec = txgen::gen_tx(rng, 3, 3);
+    check_pruning(rng, case, dag, spec)
+}
+
+fn jet_case(rng: &mut Rng, case: &mut Case) -> Outcome {
+    let spec = txgen::gen_tx(rng, 3, 3);
+    let dag = match case_on_jet_output(rng, &spec) {
+        Some(d) => d,
+        None => return Outcome::Inconclusive("no jet with an unbalanced sum output".into()),
+    };
+    if let Some(Op::Jet(j)) = dag.nodes.first() {
+        case.count(&format!("pinned-sum-jet.{}", j.name()));
+    }
+    let dag = if rng.chance(1, 3) { with_both_ways_tail(&dag) } else { dag };
+    check_pruning(rng, case, dag, spec)
+}
+
+fn check_pruning(rng: &mut Rng, case: &mut Case, dag: Dag, spec: txgen::TxSpec) -> Outcome {
+    let mut twins = false;
+    match check_pruning_inner(rng, case, dag, spec, &mut twins) {
+        // A recognisable class (known_findings.json): the pruned program holds two node objects with one identity root
+        // (typically an assertion made by pruning and a structurally equal case node that kept both branches); the
+        // encoder writes them as one node, so everything that goes through the bytes sees another program.
+        Outcome::Violated { sig, detail }
+            if twins && (sig.starts_with("pruned-reencode") || sig.starts_with("pruned-own-encoding-rejected") || sig.starts_with("c-rejects-pruned") || sig.starts_with("pruned-roots-differ-from-c") || sig.starts_with("c-eval-pruned")) =>
+        {
+            violated("pruned-encoding:equal-ihr-twins", format!("[{}] {}", sig, detail))
+        }
+        o => o,
+    }
+}
+
+fn check_pruning_inner(rng: &mut Rng, case: &mut Case, dag: Dag, spec: txgen::TxSpec, twins: &mut bool) -> Outcome {
     let env = match guard(|| txgen::build_env(&spec)) {
         Ok(e) => e,
         Err(pn) => return violated("panic:env-build", pn),
@@ -74,6 +215,7 @@ fn one_case(rng: &mut Rng, case: &mut Case, family: Family) -> Outcome {
         (Err(e1), Ok(Ok(_))) => return violated("prune-succeeded-after-failed-run", format!("exec failed with `{}` but prune succeeded ; {}", e1, case.desc)),
     };
     case.count("run-ok");
+    *twins = has_ihr_twins(&q);
     // 1. same commitment root
     if q.cmr() != p.cmr() {
         return violated("pruned-cmr-differs", format!("CMR {} before, {} after pruning ; {}", p.cmr(), q.cmr(), case.desc));
@@ -136,7 +278,20 @@ fn one_case(rng: &mut Rng, case: &mut Case, family: Family) -> Outcome {
     }
     // roots and cost of the pruned program agree with C as well (C03 on pruned programs)
     if c.analysis.cmr != q.cmr().to_byte_array() || c.analysis.ihr != q.ihr().to_byte_array() || c.analysis.amr != q.amr().to_byte_array() || simplicity::Cost::from_milliweight(c.analysis.cost) != q.bounds().cost {
-        return violated("pruned-roots-differ-from-c", format!("roots/cost of the pruned program differ between Rust and C ; {}", case.desc));
+        return violated(
+            "pruned-roots-differ-from-c",
+            format!(
+                "roots/cost of the pruned program differ between Rust and C: cmr {} ihr {} amr {} cost {} (Rust {:?} / C {}) ; pruned program:\n{} ; {}",
+                c.analysis.cmr == q.cmr().to_byte_array(),
+                c.analysis.ihr == q.ihr().to_byte_array(),
+                c.analysis.amr == q.amr().to_byte_array(),
+                simplicity::Cost::from_milliweight(c.analysis.cost) == q.bounds().cost,
+                q.bounds().cost,
+                c.analysis.cost,
+                dump(&q),
+                case.desc
+            ),
+        );
     }
     match c.eval {
         Some(0) => {}
@@ -176,6 +331,26 @@ fn one_case(rng: &mut Rng, case: &mut Case, family: Family) -> Outcome {
     }
 }
 
+/// Does the program hold two node objects with one identity root that are not the same kind of node or are typed
+/// differently inside (e.g. a case node and an assertion that pruning made out of a structurally equal case node)?
+fn has_ihr_twins(r: &RedeemNode) -> bool {
+    let mut seen: std::collections::HashMap<[u8; 32], (String, [u8; 32])> = std::collections::HashMap::new();
+    for d in r.post_order_iter::<InternalSharing>() {
+        let kind = match d.node.inner() {
+            Inner::Case(..) => "case",
+            Inner::AssertL(..) => "assertl",
+            Inner::AssertR(..) => "assertr",
+            _ => "other",
+        }
+        .to_string();
+        let e = seen.entry(d.node.ihr().to_byte_array()).or_insert((kind.clone(), d.node.amr().to_byte_array()));
+        if e.0 != kind || e.1 != d.node.amr().to_byte_array() {
+            return true;
+        }
+    }
+    false
+}
+
 fn dump(r: &RedeemNode) -> String {
     let mut s = String::new();
     for d in r.post_order_iter::<InternalSharing>() {
@@ -203,5 +378,6 @@ fn clone_err(e: &simplicity::bit_machine::ExecutionError) -> simplicity::bit_mac
 pub fn run(ctx: &Ctx) {
     let t = ctx.tier;
     ctx.run_sub("nojets", Plan::sample(t.pick(40_000, 2_000_000), 0.45), |rng, case| one_case(rng, case, Family::None));
-    ctx.run_sub("elements", Plan::sample(t.pick(30_000, 1_600_000), 0.45), |rng, case| one_case(rng, case, Family::Elements));
+    ctx.run_sub("elements", Plan::sample(t.pick(30_000, 1_600_000), 0.4), |rng, case| one_case(rng, case, Family::Elements));
+    ctx.run_sub("cases-on-jet-outputs", Plan::sample(t.pick(6_000, 300_000), 0.1), jet_case);
 }
